@@ -15,7 +15,7 @@ from vf import framework as fw
 from props.mech import assumed_tokens, describe_diff
 
 PROJ = "apishape"
-LEMMAS = ["assumed_no_unknown", "runPlan_registers_before_submit", "start_holds_lock_across_lookup_read_launch",
+LEMMAS = ["assumed_no_unknown", "runPlan_registers_before_submit", "runPlan_submit_ctx_not_cancellable", "start_holds_lock_across_lookup_read_launch",
           "wait_blocks_on_registered_waiter"]
 
 SCRATCH = """From Coq Require Import List String Bool Arith.
